@@ -648,3 +648,11 @@ Proof.
   - rewrite firstn_length, Hi. reflexivity.
   - unfold bytes_ok in *. apply Forall_forall. intros x Hx. rewrite Forall_forall in Bi. apply Bi. eapply in_firstn; exact Hx.
 Qed.
+
+(* the ideal cipher used in the correspondence satisfies the premise, so the theorems are not vacuous *)
+Lemma ideal_round_trip k iv p : c_dec ideal_cipher k iv (c_enc ideal_cipher k iv p) = Some p.
+Proof.
+  cbn [ideal_cipher c_dec c_enc]. rewrite !Nat2N.id.
+  repeat (rewrite ?Nat2N.id, ?firstn_app, ?skipn_app, ?Nat.sub_diag, ?firstn_all, ?skipn_all, ?app_nil_r; cbn [firstn skipn app]).
+  rewrite !bytes_eqb_refl, !N.eqb_refl. reflexivity.
+Qed.
